@@ -378,6 +378,8 @@ pub(super) fn derive_schema(input: TokenStream) -> syn::Result<TokenStream> {
                     }
                 }
 
+                let is_unit_variant = matches!(v.fields, Fields::Unit);
+
                 let mut schema = if let Some(schema_with) = &variant_attrs.openapi.schema_with {
                     let schema_with = syn::parse_str::<Path>(schema_with)?;
                     quote! {
@@ -398,6 +400,12 @@ pub(super) fn derive_schema(input: TokenStream) -> syn::Result<TokenStream> {
                         schema
                     }
 
+                    (None, _, _) if is_unit_variant => {/* Externally tagged, unit: serde writes just `"Variant"` */
+                        quote! {
+                            ::ohkami::openapi::string().enumerates([#tag])
+                        }
+                    }
+
                     (None, _, _) => {/* Externally tagged */
                         quote! {
                             ::ohkami::openapi::object()
@@ -409,6 +417,14 @@ pub(super) fn derive_schema(input: TokenStream) -> syn::Result<TokenStream> {
                         let t = LitStr::new(t, Span::call_site());
                         quote! {
                             #schema
+                                .property(#t, ::ohkami::openapi::string().enumerates([#tag]))
+                        }
+                    }
+
+                    (Some(t), Some(_), _) if is_unit_variant => {/* Adjacently tagged, unit: serde writes no content */
+                        let t = LitStr::new(t, Span::call_site());
+                        quote! {
+                            ::ohkami::openapi::object()
                                 .property(#t, ::ohkami::openapi::string().enumerates([#tag]))
                         }
                     }
